@@ -438,7 +438,8 @@ def run(pid, tier, seed, t0):
                         "final_srv": sched_map[sid]["recs"][-1]["srv"] if sched_map[sid]["recs"] else None})
     code, unlisted = verdict.finish()
     coverage = {
-        "states": tot_states, "transitions": tot_trans, "depth": mc.depth, "exhaustive": True,
+        "states": tot_states, "transitions": tot_trans, "depth": mc.depth, "exhaustive": False,
+        "exhaustive_note": "the bounded model is enumerated completely by TLC; the schedules replayed on the real server are a generated sample of its behaviours plus random walks",
         "model_config_with_coverage": mc_cfg, "model_config_states": mc.distinct, "model_configs": model_cfgs, "model_properties": MODEL_PROPS[pid], "other_model_runs": extra_models,
         "tlc_coverage": {a: {"distinct": d, "taken": t} for a, (d, t) in sorted(cov.items())},
         "tlc_actions_never_taken": never,
